@@ -373,6 +373,7 @@ def rules(ck, P):
     # ---------------- R-CACHE-KEY: a cached value is a function of its key
     _cache_key_rules(ck, P)
     wire.block_geometry_rules(ck, P)
+    wire.pm_directory_codec_rules(ck, P)
     c03.pm_cover_rules(ck, P, "R-PM-COVER")
     # ---------------- R-TAR-PREFIX
     tr = [b for b in P.bodies if b["q"].endswith("tar::reader::TarTilesReader::open_path")]
